@@ -846,12 +846,19 @@ func sizeRejections(g *ssa.Function, maxBody int64) []sizeRejection {
 		if !isC || k < maxBody-4096 || k > maxBody+4096 {
 			return
 		}
+		// which edge refuses, and from which size on: n > K / n >= K refuse on the true edge,
+		// the accepting forms n <= K / n < K refuse on the false edge
 		var smallest int64
+		rejectSucc := 0
 		switch bo.Op {
 		case token.GTR:
 			smallest = k + 1
 		case token.GEQ:
 			smallest = k
+		case token.LEQ:
+			smallest, rejectSucc = k+1, 1
+		case token.LSS:
+			smallest, rejectSucc = k, 1
 		default:
 			return
 		}
@@ -860,7 +867,7 @@ func sizeRejections(g *ssa.Function, maxBody int64) []sizeRejection {
 			if !ok {
 				continue
 			}
-			ok2 := WalkFrom(iff.Block().Succs[0], nil, func(in ssa.Instruction) int {
+			ok2 := WalkFrom(iff.Block().Succs[rejectSucc], nil, func(in ssa.Instruction) int {
 				if ret, isR := in.(*ssa.Return); isR {
 					if RetErrKind(ret) == "nil" {
 						return Hit
